@@ -619,8 +619,80 @@ func (g *Gen) makeSlice(in *ssa.MakeSlice, st *State, reach string) {
 	g.define(in, "(mk-slice "+r+" 0 "+ln+" "+cp+")")
 }
 
+// rune/byte slice <-> string conversions. []rune(s) yields a fresh backing array equal to the
+// uninterpreted array ext.runes(s) of length ext.runecount(s); string(rs) is the uninterpreted
+// ext.runestr of the array contents and the range. []byte(s) / string(bs) are exact.
+func (g *Gen) declRuneFuns() {
+	g.uses["str"] = true
+	g.declRuneCount()
+	g.declareFun("ext.runes", []string{"String"}, "(Array Int Int)")
+	g.declareFun("ext.runestr", []string{"(Array Int Int)", "Int", "Int"}, "String")
+	g.trusted["[]rune(s) / string([]rune) modelled by uninterpreted functions (UTF-8 decoding itself is not modelled); 0 <= runecount(s) <= len(s)"] = true
+}
+
+func (g *Gen) stringSliceConv(in *ssa.Convert, x *SV, st *State) bool {
+	from, to := in.X.Type(), in.Type()
+	if isString(from) {
+		sl, ok := to.Underlying().(*types.Slice)
+		if !ok {
+			return false
+		}
+		eb, ok := sl.Elem().Underlying().(*types.Basic)
+		if !ok {
+			return false
+		}
+		k, hs := g.elemHeap("Int")
+		g.heapSortsTouch(k, hs)
+		E := g.heapGet(st, k, hs)
+		switch eb.Kind() {
+		case types.Int32: // []rune(s)
+			g.declRuneFuns()
+			n := g.freshConst("rc", "Int")
+			g.addFact(fmt.Sprintf("(and (= %s (ext.runecount %s)) (<= 0 %s) (<= %s (str.len %s)))", n, x.S, n, n, x.S))
+			r := g.newRef(st, in.Name())
+			st.heaps[k] = g.nameHeap(k, hs, "(store "+E+" "+r+" (ext.runes "+x.S+"))")
+			g.uses["quant"] = true
+			g.addFact(fmt.Sprintf("(forall ((j! Int)) (! (and (<= 0 (select (ext.runes %[1]s) j!)) (<= (select (ext.runes %[1]s) j!) 1114111)) :pattern ((select (ext.runes %[1]s) j!))))", x.S))
+			g.define(in, "(mk-slice "+r+" 0 "+n+" "+n+")")
+			return true
+		case types.Uint8: // []byte(s)
+			r := g.newRef(st, in.Name())
+			arr := g.freshConst("bytes", "(Array Int Int)")
+			g.uses["quant"] = true
+			g.addFact(fmt.Sprintf("(forall ((j! Int)) (! (=> (and (<= 0 j!) (< j! (str.len %[1]s))) (= (select %[2]s j!) (str.to_code (str.at %[1]s j!)))) :pattern ((select %[2]s j!))))", x.S, arr))
+			st.heaps[k] = g.nameHeap(k, hs, "(store "+E+" "+r+" "+arr+")")
+			g.define(in, fmt.Sprintf("(ite (= (str.len %[1]s) 0) (mk-slice 0 0 0 0) (mk-slice %[2]s 0 (str.len %[1]s) (str.len %[1]s)))", x.S, r))
+			return true
+		}
+		return false
+	}
+	if isString(to) {
+		sl, ok := from.Underlying().(*types.Slice)
+		if !ok {
+			return false
+		}
+		eb, ok := sl.Elem().Underlying().(*types.Basic)
+		if !ok {
+			return false
+		}
+		k, hs := g.elemHeap("Int")
+		g.heapSortsTouch(k, hs)
+		E := g.heapGet(st, k, hs)
+		switch eb.Kind() {
+		case types.Int32:
+			g.declRuneFuns()
+			g.define(in, fmt.Sprintf("(ext.runestr (select %[1]s (s-ref %[2]s)) (s-off %[2]s) (+ (s-off %[2]s) (s-len %[2]s)))", E, x.S))
+			return true
+		}
+	}
+	return false
+}
+
 func (g *Gen) convert(in *ssa.Convert, x *SV, st *State, reach string) {
 	from, to := in.X.Type(), in.Type()
+	if g.stringSliceConv(in, x, st) {
+		return
+	}
 	sv := g.convertSVg(x, from, to, in.Pos(), reach, st)
 	if sv == nil {
 		if !g.pa {
